@@ -247,9 +247,12 @@ void MEDDLY::copy_MT::_compute(int L, unsigned in,
     //
     // Determine level information
     //
-    const int Alevel = L>0 && can_use_relation_nodes
-        ? MXD_levels::unprimedOfLevel(argF->getNodeLevel(A))
-        : argF->getNodeLevel(A);
+    // Relation nodes describe an unprimed level and the primed level
+    // below it together, so they can only be used for unprimed nodes.
+    // A primed node (reached directly, e.g., from another operation
+    // working at a primed level) is copied as an ordinary node.
+    const int Alevel = argF->getNodeLevel(A);
+    const bool use_relation_node = can_use_relation_nodes && (Alevel > 0);
 
 #ifdef TRACE
     out << "copy_MT::_compute(" << A << ")\n";
@@ -287,7 +290,7 @@ void MEDDLY::copy_MT::_compute(int L, unsigned in,
         //
 
         unpacked_node* Cu = nullptr;
-        if (can_use_relation_nodes) {
+        if (use_relation_node) {
             //
             // Use relation nodes for relations, so we can copy
             // any implicit representation to MxDs
